@@ -61,6 +61,26 @@ pub fn main(args: &[String]) {
         check("random", cp, &mut problems);
         calls += 4;
     }
+    // values above U+10FFFF that alias a real code point when high bits are truncated: asked right after the
+    // code point itself; they are not scalar values, so both classes must answer DISALLOWED
+    let mut alias_calls = 0u64;
+    for cp in 0..n {
+        for off in [0x0011_0000u32, 0x0020_0000, 0x0100_0000, 0x8000_0000, 0xFF00_0000, 0xFFE0_0000] {
+            let v = cp.wrapping_add(off);
+            if v < n {
+                continue;
+            }
+            if alias_calls % 6 == 0 {
+                let _ = classify(cp);
+            }
+            alias_calls += 1;
+            let got = [class_value_g("Id", v), class_value_g("Ff", v)];
+            if got != ["DISALLOWED", "DISALLOWED"] && problems.len() < 50 {
+                problems.push(json!({"order": "alias above U+10FFFF", "cp": cp, "value": v, "got": got}));
+            }
+        }
+    }
+    calls += alias_calls * 2;
     // several threads classifying concurrently in different orders
     let base = std::sync::Arc::new(baseline);
     let mut hs = Vec::new();
@@ -87,5 +107,5 @@ pub fn main(args: &[String]) {
     for p in problems.iter() {
         println!("{}", json!({ "problem": p }));
     }
-    println!("{}", json!({"summary": {"calls": calls, "orders": 6, "problems": problems.len()}}));
+    println!("{}", json!({"summary": {"calls": calls, "orders": 7, "problems": problems.len()}}));
 }
